@@ -25,6 +25,9 @@ unconditional statement modulo that one inequality about `parseFuel`: with
 -/
 import TgModel.Props.C02Builder
 import TgModel.Lemmas.ProgressBound
+import TgModel.Lemmas.GrammarCost
+import TgModel.Lemmas.ProgressLeaves
+import TgModel.Lemmas.ParserFinish
 
 namespace Tg.C02
 open Progress
@@ -112,5 +115,125 @@ example : isOutOfFuel (run ("def x { int y = ".toList ++ List.replicate 16 '[') 
   decide +kernel
 
 example : ∃ r, Grammar.parse exInput2 = .ok r := parse_never_panics exInput2
+
+/-! ### work: the number of steps is linear in the input
+
+`PState.steps` is bumped by every `lex` and every `start_node` / `start_node_at` — what the hook
+`verif_hooks::bump` counts on the Rust side.  `Lemmas/ProgressCost.lean` refines `check_sound` for
+this SUM (not the depth): a run of a grammar function that consumes nothing costs at most
+`grammarZ f` steps (at most 31), one that consumes costs at most 500 steps per character.  The
+argument is the progress argument of `Progress.check` with an accounting: every consumed character
+is worth 500; a function that consumes hands its caller a rebate of `(7 - rank) * 62`, out of which
+the caller pays its own fixed overhead (at most 62 per function body and per loop iteration, kernel
+evaluation: `grammar_overhead`, `grammar_loops`) — a call before any consumption in the caller goes
+to a lower rank, so the rebate shrinks by 62 per level and, with `rank ≤ 6`, never runs out; a
+continuing loop iteration consumes, so it pays for itself.  500 is what this accounting needs
+(`1 + (6 + 2) * 62`); the measured worst case is below 3 steps per token. -/
+
+theorem init_steps (input : List Char) : (PState.init input).steps = 0 := by
+  simp [PState.init]
+
+/-- **linear work, every run**: whatever the fuel, a successful run of `source_file` makes at most
+`500 * input.length + 2` steps -/
+theorem run_work_linear (input : List Char) (n : Nat) (s : PState)
+    (h : exec Grammar.defs Tables.recoverTokens n (Grammar.defs .source_file) (PState.init input) = .ok s) :
+    s.steps ≤ 500 * input.length + 2 := by
+  have hmem : (⟨.any, [⟨.inS [.Eof], some false, false, false⟩]⟩ : Summ) ∈ grammarSumms .source_file := by
+    simp [grammarSumms]
+  have hf := check_cost Grammar.defs Tables.recoverTokens grammarSumms grammarRanks input grammarZ
+    (consumed input) (consumed_measure Grammar.defs Tables.recoverTokens input) checkFn_all ranks_le
+    grammarZ_closed grammar_overhead grammar_loops
+    (mu (PState.init input)) (grammarRanks .source_file) .source_file _ hmem
+    (PState.init input) (Nat.le_refl _) (Nat.le_refl _) (PState.inv_init input) trivial n s h
+  have h0 := init_steps input
+  have hle := mu_exec_le Grammar.defs Tables.recoverTokens input n _ _ s (PState.inv_init input) h
+  have hz : grammarZ .source_file = 2 := rfl
+  have hc : consumed input s ≤ input.length := by unfold consumed; omega
+  rcases Nat.lt_or_eq_of_le hle with hlt | heq
+  · have := hf.c hlt
+    omega
+  · have := hf.z heq
+    omega
+
+/-- **linear work**: the parser model's step count — one per `lex`, one per `start_node` /
+`start_node_at`, the quantity the check measures on the Rust side — is at most 500 per character
+of the input -/
+theorem parse_work_linear (input : List Char) (r : Grammar.ParseResult) (h : Grammar.parse input = .ok r) :
+    r.steps ≤ 500 * (input.length + 1) := by
+  obtain ⟨s, hx, _, _, _, hst⟩ := (Grammar.parse_ok_iff input r).mp h
+  obtain ⟨k, hk⟩ : ∃ k, Grammar.parseFuel input = k + 1 := ⟨Grammar.parseFuel input - 1, by unfold Grammar.parseFuel; omega⟩
+  rw [hk] at hx
+  simp only [exec] at hx
+  have := run_work_linear input k s hx
+  omega
+
+/-- the per-function form: a run of any grammar function, from any state that satisfies the parser
+invariant and one of the function's entry conditions, costs at most `grammarZ f ≤ 31` steps if it
+consumes nothing and at most 500 per consumed character otherwise -/
+theorem fn_work_linear (input : List Char) (f : Fn) (sm : Summ) (hsm : sm ∈ grammarSumms f) (s s' : PState)
+    (hi : Inv input s) (hpre : sm.pre.holds s.cur) (n : Nat)
+    (h : exec Grammar.defs Tables.recoverTokens n (Grammar.defs f) s = .ok s') :
+    s'.steps ≤ s.steps + 500 * (mu s - mu s') + grammarZ f := by
+  have hf := check_cost Grammar.defs Tables.recoverTokens grammarSumms grammarRanks input grammarZ
+    (consumed input) (consumed_measure Grammar.defs Tables.recoverTokens input) checkFn_all ranks_le
+    grammarZ_closed grammar_overhead grammar_loops
+    (mu s) (grammarRanks f) f sm hsm s (Nat.le_refl _) (Nat.le_refl _) hi hpre n s' h
+  have hle := mu_exec_le Grammar.defs Tables.recoverTokens input n _ s s' hi h
+  have h1 := mu_le_length hi
+  rcases Nat.lt_or_eq_of_le hle with hlt | heq
+  · have := hf.c hlt
+    unfold consumed at this
+    omega
+  · have := hf.z heq
+    omega
+
+theorem init_leaves (input : List Char) : leavesOf (PState.init input) = 0 := by
+  simp [PState.init, leavesOf, builderLeaves, numLeavesL, parentsLeaves]
+
+/-- **linear work, in tokens**: the step count is at most 500 per token leaf of the tree (`lex` is
+called once per leaf pushed; the node starts between two token consumptions are bounded by the
+progress argument) -/
+theorem parse_work_linear_tokens (input : List Char) (r : Grammar.ParseResult)
+    (h : Grammar.parse input = .ok r) : r.steps ≤ 500 * (numLeaves r.tree + 1) := by
+  obtain ⟨s, hx, hcur, hpar, _, hst⟩ := (Grammar.parse_ok_iff input r).mp h
+  obtain ⟨k, hk⟩ : ∃ k, Grammar.parseFuel input = k + 1 := ⟨Grammar.parseFuel input - 1, by unfold Grammar.parseFuel; omega⟩
+  rw [hk] at hx
+  simp only [exec] at hx
+  have hmem : (⟨.any, [⟨.inS [.Eof], some false, false, false⟩]⟩ : Summ) ∈ grammarSumms .source_file := by
+    simp [grammarSumms]
+  have hf := check_cost Grammar.defs Tables.recoverTokens grammarSumms grammarRanks input grammarZ
+    leavesOf (leaves_measure Grammar.defs Tables.recoverTokens input) checkFn_all ranks_le
+    grammarZ_closed grammar_overhead grammar_loops
+    (mu (PState.init input)) (grammarRanks .source_file) .source_file _ hmem
+    (PState.init input) (Nat.le_refl _) (Nat.le_refl _) (PState.inv_init input) trivial k s hx
+  have h0 := init_steps input
+  have hl0 := init_leaves input
+  have hle := mu_exec_le Grammar.defs Tables.recoverTokens input k _ _ s (PState.inv_init input) hx
+  have hz : grammarZ .source_file = 2 := rfl
+  have hfin : leavesOf s = numLeaves r.tree := by
+    simp [leavesOf, builderLeaves, hcur, hpar, numLeavesL, parentsLeaves]
+  rcases Nat.lt_or_eq_of_le hle with hlt | heq
+  · have := hf.c hlt
+    omega
+  · have := hf.z heq
+    omega
+
+/-- the largest entry of the cost table -/
+theorem grammarZ_le : ∀ f, grammarZ f ≤ 31 := by
+  have h : Fn.all.all (fun f => decide (grammarZ f ≤ 31)) = true := by decide +kernel
+  intro f
+  have := List.all_eq_true.mp h f (by cases f <;> decide)
+  simpa using this
+
+def workOf : Grammar.ParseOut → Option (Nat × Nat)
+  | .ok r => some (r.steps, numLeaves r.tree)
+  | _ => none
+
+/-- non-vacuity: the work is not one step per token — on `def x{int y=[[[[[[[[1]]]]]]]];}` the
+parser model makes 74 steps for 27 tokens (and 31 characters) -/
+example : workOf (Grammar.parse "def x{int y=[[[[[[[[1]]]]]]]];}".toList) = some (74, 27) := by decide +kernel
+
+example : ∀ r, Grammar.parse "def x{int y=[[[[[[[[1]]]]]]]];}".toList = .ok r → r.steps ≤ 500 * (31 + 1) :=
+  fun r h => parse_work_linear _ r h
 
 end Tg.C02
